@@ -30,7 +30,7 @@ import (
 )
 
 var st = stat.New("C20",
-	"Exit path. Case = {1..6 logging goroutines each logging 1..60 numbered entries through two loggers whose writers append one length-framed record per Write to a file, per-Write delay 0..3 ms with a total backlog <= 300 ms (well inside the 1 s flush timeout); after every logging call has returned, 1..4 goroutines under `defer tars.CheckPanic()` panic 0..60 ms apart with error / string / struct panic values - or (a fifth of the cases) the process dies from a panic inside tars.Run() itself (server config naming missing TLS key files), where Run's deferred flush has to save the entries}. The child process must end through CheckPanic's exit. Oracle over the file: every entry is present exactly once on the file of its logger, one entry per record, entries of one goroutine in logging order. Non-trivial = >= 2 panicking goroutines or a backlog of >= 50 ms at the first panic. Distinct = distinct case JSON.",
+	"Exit path. Case = {1..6 logging goroutines each logging 1..60 numbered entries (levelled calls, or - a quarter of the cases - only Logger.WriteLog, the path of Trace and the context logger) through two loggers whose writers append one length-framed record per Write to a file, per-Write delay 0..3 ms with a total backlog <= 300 ms (well inside the 1 s flush timeout); after every logging call has returned, 1..4 goroutines under `defer tars.CheckPanic()` panic 0..60 ms apart with error / string / struct panic values - or (a fifth of the cases) the process dies from a panic inside tars.Run() itself (server config naming missing TLS key files), where Run's deferred flush has to save the entries}. The child process must end through CheckPanic's exit. Oracle over the file: every entry is present exactly once on the file of its logger, one entry per record, entries of one goroutine in logging order. Non-trivial = >= 2 panicking goroutines or a backlog of >= 50 ms at the first panic. Distinct = distinct case JSON.",
 	"the child is this test binary re-executed in worker mode; its exit status must be non-zero (os.Exit(-1) in CheckPanic)")
 
 type Case struct {
@@ -42,6 +42,9 @@ type Case struct {
 	// tars.Run() itself (its configuration step rejects the server config: missing TLS key
 	// files); Run's deferred flush is what saves the entries then
 	ViaRun bool `json:"via_run,omitempty"`
+	// Raw: every entry goes through Logger.WriteLog (what Trace and the context logger of
+	// contrib/log use) - no levelled call is made in the whole process
+	Raw bool `json:"raw,omitempty"`
 }
 
 func draw(rt *rapid.T) Case {
@@ -58,6 +61,7 @@ func draw(rt *rapid.T) Case {
 		c.WriteDelayUs = 300000 / total
 	}
 	c.ViaRun = rapid.IntRange(0, 4).Draw(rt, "viaRun") == 0
+	c.Raw = rapid.IntRange(0, 3).Draw(rt, "raw") == 0
 	np := rapid.SampledFrom([]int{1, 2, 2, 2, 3, 4}).Draw(rt, "panickers")
 	for i := 0; i < np; i++ {
 		c.PanicGapsMs = append(c.PanicGapsMs, rapid.SampledFrom([]int{0, 0, 1, 5, 20, 60}).Draw(rt, "gap"))
@@ -123,7 +127,11 @@ func TestC20ExitChild(t *testing.T) {
 				lg = l2
 			}
 			for i := 0; i < n; i++ {
-				lg.Infof("%s", token(g, i))
+				if c.Raw {
+					lg.WriteLog([]byte(token(g, i) + "\n"))
+				} else {
+					lg.Infof("%s", token(g, i))
+				}
 			}
 		}(g, n)
 	}
@@ -311,6 +319,7 @@ func TestC20Exit(t *testing.T) {
 		"three-panics-same-instant": {Entries: []int{50}, WriteDelayUs: 3000, PanicGapsMs: []int{0, 0, 0}, PanicKind: "string"},
 		"single-panic":              {Entries: []int{30, 30, 30}, WriteDelayUs: 1000, PanicGapsMs: []int{5}, PanicKind: "struct"},
 		"panic-inside-run":          {Entries: []int{40, 20}, WriteDelayUs: 2000, PanicGapsMs: []int{0}, PanicKind: "error", ViaRun: true},
+		"raw-entries-only":          {Entries: []int{25, 25}, WriteDelayUs: 1000, PanicGapsMs: []int{0}, PanicKind: "string", Raw: true},
 	}
 	if stat.ReplayPath() == "" && os.Getenv("VERIF_ONLY") == "" {
 		stat.Pinned(t, st, "exit", pinned, func(c Case) *stat.Failure {
@@ -322,6 +331,9 @@ func TestC20Exit(t *testing.T) {
 		cls := []string{fmt.Sprintf("panickers-%d", len(c.PanicGapsMs)), "panic-value-" + c.PanicKind}
 		if c.ViaRun {
 			cls = []string{"panic-inside-tars-run"}
+		}
+		if c.Raw {
+			cls = append(cls, "raw-entries-only")
 		}
 		st.CaseJSON(c, nontrivial(c), cls...)
 		return run(c)
